@@ -277,6 +277,50 @@ def visible(s):
     return parsers.norm_line(s) != ""
 
 
+# ---- captions that share their times (runs of 2 and 3): SRT and the legacy / single-position DFXP writers merge them into
+# one cue whose lines are the captions' lines in order; the other writers keep one cue per caption
+MERGING = ("SRTWriter", "SinglePositioningDFXPWriter", "LegacyDFXPWriter")
+TAILS = ["plain", "closing-style", "closing-class-style", "break"]
+
+
+def eval_concurrent(wname, texts, tail):
+    """texts: the single lines of 2-3 captions with identical times; tail: how every caption but the last one ends"""
+    from pycaption import Caption, CaptionList, CaptionNode, CaptionSet
+
+    cl = CaptionList()
+    for i, t in enumerate(texts):
+        last = i == len(texts) - 1
+        if tail == "closing-style" and not last:
+            nodes = [CaptionNode.create_style(True, {"italics": True}), CaptionNode.create_text(t), CaptionNode.create_style(False, {"italics": True})]
+        elif tail == "closing-class-style" and not last:
+            nodes = [CaptionNode.create_style(True, {"class": "c1"}), CaptionNode.create_text(t), CaptionNode.create_style(False, {"class": "c1"})]
+        elif tail == "break" and not last:
+            nodes = [CaptionNode.create_text(t), CaptionNode.create_break()]
+        else:
+            nodes = [CaptionNode.create_text(t)]
+        cl.append(Caption(1000000, 2000000, nodes))
+    cl.append(Caption(5000000, 6000000, [CaptionNode.create_text("Sentinel")]))
+    lines = [parsers.norm_line(t) for t in texts]
+    klass = f"concurrent-run-of-{len(texts)}/{tail}"
+    try:
+        doc = writer_obj(wname).write(CaptionSet({"en-US": cl}))
+        got = parse_output(wname, doc)
+    except parsers.ParseError as e:
+        return [(f"C03/{wname}/output-unparseable/{klass}", {"err": str(e)[:300]})], "unparseable"
+    except Exception as e:  # noqa
+        return [(f"C03/{wname}/raises:{type(e).__name__}/{klass}", {"err": str(e)[:200]})], "raises"
+    merged = [lines, ["Sentinel"]]
+    separate = [[l] for l in lines] + [["Sentinel"]]
+    ok = got == merged if wname in MERGING else got == separate
+    if wname == "SAMIWriter" and not ok:
+        # SAMI files the paragraphs of one start time in one SYNC block: one paragraph per caption, in order
+        ok = got == separate
+    if not ok:
+        kind = "cue-count" if len(got) not in (len(merged), len(separate)) else "lines-differ"
+        return [(f"C03/{wname}/{kind}/{klass}", {"got": got, "want": merged if wname in MERGING else separate, "doc": doc[-700:]})], kind
+    return [], "ok"
+
+
 def reuse_items():
     items = []
     ls = line_set(2)
@@ -295,6 +339,7 @@ def reuse_eval(item):
 def shards(tier, seed):
     b = bounds(tier)
     sh = [{"k": "reuse", "w": None}]
+    sh.append({"k": "concurrent", "w": None})
     for w in WRITERS:
         nparts = (2 if tier == "quick" else 24) if w not in ("SRTWriter", "WebVTTWriter", "MicroDVDWriter") else (1 if tier == "quick" else 4)
         for part in range(nparts):
@@ -310,6 +355,17 @@ def run_shard(d):
     acc = Acc()
     if d["k"] == "reuse":
         shared.run(acc, reuse_items(), reuse_eval, sample=lambda it: {"reuse_run_step": [it[0], it[1]]})
+        return acc.result()
+    if d["k"] == "concurrent":
+        toks = ["word", "&", "<", "a -->", "123"]
+        for w in WRITERS:
+            for n in (2, 3):
+                for texts in itertools.product(toks, repeat=n):
+                    for tail in TAILS:
+                        v, out = eval_concurrent(w, list(texts), tail)
+                        acc.case(("concurrent", w, texts, tail), True, out, {"writer": w, "captions_with_identical_times": list(texts), "earlier_captions_end_with": tail})
+                        for sig, det in v:
+                            acc.violation(sig, {"w": w, "concurrent": list(texts), "tail": tail}, det)
         return acc.result()
     w = d["w"]
     if d["k"] == "single":
@@ -354,6 +410,9 @@ def run_shard(d):
 def replay(case):
     if case.get("reuse"):
         return shared.replay(reuse_items(), reuse_eval, case["index"])
+    if case.get("concurrent"):
+        v, _ = eval_concurrent(case["w"], case["concurrent"], case["tail"])
+        return [{"sig": s, "detail": d} for s, d in v]
     items = [tuple(i) for i in case["items"]]
     v, _ = evaluate(case["w"], items)
     return [{"sig": s, "detail": d} for s, d in v]
